@@ -7,7 +7,7 @@ props = [json.loads(l) for l in open('/verif/properties.jsonl')]
 CLAIMED = {
  "C01": dict(
    technique="bounded exhaustive enumeration (count/unrank by node count) of all typed core programs, each executed on the real interpreter and on a reference evaluator",
-   text="Every program of a typed core grammar (applications with fixed/rest parameters, lambda, top-level definitions in both spellings, internal definitions with forward references, if with boolean and non-boolean tests, quote, apply with and without spread arguments, higher-order and closure-making procedures, a tick probe at every position) with at most N nodes, under two naming disciplines, is evaluated form by form on the real interpreter; the value and the tick trace of every form must equal the reference evaluator's under one operand-order policy. The simplest programs are additionally re-run from the initial state of a fresh interpreter.",
+   text="Every program of a typed core grammar (applications with fixed/rest parameters, lambda, top-level definitions in both spellings, internal definitions with forward references, if with boolean and non-boolean tests, quote, apply with and without spread arguments, higher-order and closure-making procedures, a tick probe at every position) with at most N nodes, under two naming disciplines, is evaluated form by form on the real interpreter; the value and the tick trace of every form must equal the reference evaluator's under one operand-order policy. Two further grammars go deeper on narrower vocabularies: a scoping grammar (thunks and one-parameter procedures with internal definitions, top-level names colliding with internal ones) and a loop grammar (user-defined recursion on a decreasing counter with integer or list-of-thunks accumulators that capture the loop variables, the same loop run through a closure maker that yields a new closure every round, inline-lambda scopes, set! and internal definitions in bodies). The simplest programs are additionally re-run from the initial state of a fresh interpreter.",
    note="trusted: refsem (definitional evaluator written from R7RS, self-tested on the report's examples); programs beyond the node bound are not explored",
    design="7/C01"),
  "C03": dict(
@@ -17,12 +17,12 @@ CLAIMED = {
    design="7/C03"),
  "C05": dict(
    technique="bounded exhaustive sweep: every shape x truth assignment x context of every derived form and all nested pairs/triples, executed on the real interpreter against a reference evaluator",
-   text="Every shape of begin/let/let*/cond/case/and/or/when/unless (650+ templates) with a tick probe in every sub-form position under every truth assignment of its tests, in three evaluation contexts; every ordered pair (thorough: triple) of representative forms nested in every sub-form position; plus the hygiene facet (user variables named like identifiers of the bundled macro file, user rebinding of identifiers the templates rely on). Value and tick trace (order and multiplicity of evaluation) must equal the reference, which implements the forms directly from R7RS.",
+   text="Every shape of begin/let/let*/cond/case/and/or/when/unless (650+ templates) with a tick probe in every sub-form position under every truth assignment of its tests, in three evaluation contexts; every ordered pair (thorough: triple) of representative forms nested in every sub-form position; let/let* scoping against enclosing variables, scopes observed through closures made before a shadowing binding and through set! inside every binding / conditional form; plus the hygiene facet (user variables named like identifiers of the bundled macro file, user rebinding of identifiers the templates rely on). Value and tick trace (order and multiplicity of evaluation) must equal the reference, which implements the forms directly from R7RS.",
    note="trusted: refsem; known findings (hygiene, top-level begin) are recognised only by an exact defect model on cases carrying the facet",
    design="7/C05"),
  "C08": dict(
    technique="exhaustive product of fault kind x calling context x depth x position, each a history on one fresh interpreter compared form by form with a reference evaluator",
-   text="The full product of 57 faulting expressions (8 fault kinds) x 19 calling contexts (direct, operand, tail call, tail of if/cond/let, apply, callbacks of library procedures, right-hand sides, effects before/after) x depth x position is run as a history of forms on one fresh interpreter; the error kind of the failing form, the effects kept before it, the absence of effects after it and the results of all later probe forms must equal the reference.",
+   text="The full product of 69 faulting expressions (8 fault kinds, incl. faulty tail calls in a later round of a self / mutual / new-closure loop and faults raised inside Scheme-defined library procedures) x 22 calling contexts (direct, operand, tail call, tail of if/cond/let, base case of tail loops and of a non-tail recursion, apply, callbacks of library procedures, right-hand sides, effects before/after) x depth x position is run as a history of forms on one fresh interpreter; the error kind of the failing form, the effects kept before it, the absence of effects after it and the results of all later probe forms must equal the reference.",
    note="trusted: refsem error kinds; one fault per form",
    design="7/C08"),
  "C09": dict(
@@ -49,12 +49,12 @@ CLAIMED["C04"] = dict(
    design="7/C04")
 CLAIMED["C06"] = dict(
    technique="bounded exhaustive sweep: all strings up to a length over a 19-character alphabet, all token-pair adjacencies and all small datum trees under all layouts, against an independent tokenizer/reader",
-   text="Every string of length <= 5 (thorough 6) over 19 characters that reach every scanner transition is tokenised by the real lexer and compared with a reference tokenizer written from R7RS 7.1.1 (tokens end only at delimiters); the shorter ones are also read as quoted data through eval and compared with a reference reader. Every ordered pair of 39 token representatives x 9 separators x 5 contexts and every datum tree up to 4 (5) nodes under every layout plan is judged the same way.",
+   text="Every string of length <= 5 (thorough 6) over 19 characters that reach every scanner transition is tokenised by the real lexer and compared with a reference tokenizer written from R7RS 7.1.1 (tokens end only at delimiters); the shorter ones are also read as quoted data through eval and compared with a reference reader. Every ordered pair of 39 token representatives x 9 separators x 5 contexts and every datum tree up to 4 (5) nodes under every layout plan is judged the same way, as is every ASCII character (and every ordered pair of them) inserted after each of 40 prefixes that leave the scanner inside each token class.",
    note="trusted: reflex (self-tested on the repository's own lexer vectors); texts that use lexical syntax outside the supported subset are counted, not judged; the pinned non-delimited booleans/characters are a known finding recognised by an exact defect-model tokenizer",
    design="7/C06")
 CLAIMED["C07"] = dict(
    technique="bounded exhaustive input sweep in supervised worker processes (watchdog, rlimits, death classification) with post-condition forms on the same interpreter",
-   text="Every string up to length 4 (5) over a 20-character alphabet, every sequence of up to 3 (4) tokens over a 48-token vocabulary of keywords, builtins and boundary literals (plus 4 (5)-token sequences over a reduced vocabulary), every single-token mutation of the corpus (examples, test macros, the three bundled library sources) both as program text and as registered library source, every string of up to 3 exotic characters, and every single-byte corruption of a program and a library file (plus directory / missing paths) is evaluated on the real interpreter inside supervised worker processes; the outcome must be a value or a reported error, and three sanity forms must still give their values on the same interpreter.",
+   text="Every string up to length 4 (5) over a 20-character alphabet, every sequence of up to 3 (4) tokens over a 48-token vocabulary of keywords, builtins and boundary literals (plus 4 (5)-token sequences over a reduced vocabulary), every single-token mutation of the corpus (examples, test macros, the three bundled library sources) both as program text and as registered library source, every string of up to 3 exotic characters, every single-byte corruption of a program and a library file, exotic characters (byte-order mark, NUL, line separators ...) at the start, line starts and end of such files, truncated and empty files (plus directory / missing paths), and every exported procedure on every tuple of up to 2 (3) boundary arguments is evaluated on the real interpreter inside supervised worker processes; the outcome must be a value or a reported error, and three sanity forms must still give their values on the same interpreter.",
    note="stack exhaustion, memory exhaustion and non-termination end the worker, are classified by the supervisor and are listed as excluded (outside the property's claim); coverage accounting requires every index to be covered exactly once",
    design="7/C07")
 CLAIMED["C16"] = dict(
@@ -69,27 +69,27 @@ CLAIMED["C12"] = dict(
    design="7/C12")
 CLAIMED["C17"] = dict(
    technique="bounded exhaustive enumeration of program files (form sequences x file variants) run through the built binary, compared with a reference evaluator's output and with in-process evaluation",
-   text="Every program file made of the import line and every sequence of up to 3 (4) forms from an 18-form menu (displays, definitions, silent expressions, multi-line forms, 9 kinds of failing forms) x LF/CRLF x final newline x working directory is run through the built ruschm binary: stdout must be exactly what the reference evaluator displays before the first failing form, the exit status 0 iff no form fails, otherwise non-zero with exactly one diagnostic FILE:LINE:COL MESSAGE whose line lies inside the failing form and whose message is the library interface's; in-process evaluation of the same text must stop at the same form with the same error kind. Missing, directory and non-UTF-8 files must give a diagnostic and a non-zero status.",
+   text="Every program file made of the import line and every sequence of up to 3 (4) forms from a 19-form menu (displays, definitions, silent expressions, multi-line forms, 9 kinds of failing forms) x LF/CRLF x final newline x working directory is run through the built ruschm binary: stdout must be exactly what the reference evaluator displays before the first failing form, the exit status 0 iff no form fails, otherwise non-zero with exactly one diagnostic FILE:LINE:COL MESSAGE whose line lies inside the failing form and whose message is the library interface's; in-process evaluation of the same text must stop at the same form with the same error kind. Every program of <= 2 successful forms also ends in each of 10 unreadable texts (stray unquote, unterminated string/list/vector, dangling quote ...): non-zero status and one diagnostic at or after that text. Missing, directory and non-UTF-8 files must give a diagnostic and a non-zero status.",
    note="the binary is rebuilt from /repo by check.sh; process-level observation only (stdout, stderr without SGR codes, exit status)",
    design="7/C17")
 CLAIMED["C18"] = dict(
    technique="exhaustive sweep of the completeness predicate over all strings up to length 7 (8) through a hook, and exhaustive enumeration of input-line sequences fed to the built REPL binary, against a reference REPL",
-   text="(1) The REPL's completeness test is compared with the reference predicate on every string up to length 7 (8) over a 10-character alphabet (parens, string/bar/char/comment introducers, newline). (2) Every sequence of up to 3 (4) input lines from a 16-fragment menu and every two-line split of four forms at every token gap is piped into the built binary; stdout and stderr must equal the reference REPL's transcript, which cuts submissions with the reference predicate and evaluates them in sequence on one interpreter through the library interface.",
+   text="(1) The REPL's completeness test is compared with the reference predicate on every string up to length 7 (8) over a 10-character alphabet (parens, string/bar/char/comment introducers, newline). (2) Every sequence of up to 3 (4) input lines from a 23-fragment menu (incl. closing lines with trailing text and submissions ending in a definition) and every two-line split of four forms at every token gap is piped into the built binary; stdout and stderr must equal the reference REPL's transcript, which cuts submissions with the reference predicate and evaluates them in sequence on one interpreter through the library interface.",
    note="hook H1 (cfg ruschm_verif) exposes the private completeness test; terminal mode of rustyline is not driven",
    design="7/C18")
 CLAIMED["C15"] = dict(
    technique="bounded exhaustive sweep of fault x context x wrapper x layout plans, the reported position compared with extents recorded by the renderer",
-   text="Every C08 fault expression in every calling context and inside every derived-form wrapper (12 wrappers, at top level and inside a procedure) is rendered under every assignment of 5 separators (blank, LF, LF+indent, comment+LF, CRLF) to the first 3 (4) gaps of the failing form, after 0-2 preceding forms; the whole text is evaluated at once. The error must carry a location; for an unbound variable read or a non-procedure it must lie at an occurrence of the offending identifier / at the operator, otherwise inside the failing top-level form; never elsewhere.",
+   text="Every C08 fault expression in every calling context and inside every derived-form wrapper (12 wrappers, at top level and inside a procedure) is rendered under every assignment of 5 separators (blank, LF, LF+indent, comment+LF, CRLF) to the first 3 (4) gaps of the failing form, after 0-2 preceding forms; the whole text is evaluated at once. The error must carry a location; for an unbound variable read or a non-procedure it must lie at an occurrence of the offending identifier / at the operator, otherwise - including faults raised inside Scheme-defined library procedures - inside the failing top-level form; never elsewhere.",
    note="'at' tolerates the implementation's end-of-token convention (start <= position <= end+1); an assignment to an unbound variable is judged as 'inside the failing form' because the syntax tree keeps no position for its identifier (DESIGN 7/C15)",
    design="7/C15")
 CLAIMED["C13"] = dict(
    technique="explicit-state breadth-first search over importer operation histories for each import configuration, transitions replayed on fresh interpreters against a reference module system",
-   text="For 10 configurations (import graphs P->L, P->L + P->M->L, P->M->L only, L imported twice through different import sets, M before L; libraries as registered sources and as files) all histories of 14 importer operations up to depth 4 (6) are explored breadth-first with deduplication on the reference module system's canonical state; every transition is replayed on a fresh interpreter on a fresh thread and the operation plus 13 probes (unexported internals unbound, the library blind to the importer's definitions, imported names redefinable without affecting the library, one shared instance) must match.",
+   text="For 14 configurations (import graphs P->L, P->L + P->M->L, P->M->L only, L imported twice through different import sets, M before L, a library without import declaration alone and next to L; libraries as registered sources and as files) all histories of 18 importer operations up to depth 4 (6) are explored breadth-first with deduplication on the reference module system's canonical state; every transition is replayed on a fresh interpreter on a fresh thread and the operation plus 25 probes (unexported internals unbound, a binding exported under two names, the import-less library blind to names only the importer defines, the library blind to the importer's definitions, imported names redefinable without affecting the library, one shared instance) must match.",
    note="reference module system built on refsem: one instance per library per program, library scope = primitives + own imports + own definitions",
    design="7/C13")
 CLAIMED["C14"] = dict(
    technique="exhaustive enumeration of library graphs x health placements x import-attempt histories, executed in supervised worker processes against a reference loader outcome function and a state invariant through a hook",
-   text="Every directed graph on 1-2 libraries with every assignment of 7 node healths, and every graph on 3 libraries with at most one unhealthy node (thorough: every assignment), is materialised as library files under a program directory (with same-named decoys of different value in the working directory) and as registered sources; every history of import attempts on one interpreter is executed. Each attempt must succeed iff the reference loader finds neither a reachable cycle nor a reachable unhealthy library, and otherwise fail with one of the corresponding error kinds - independently of earlier attempts; after every attempt the in-progress set (hook H2) must be empty and the exports of successfully imported libraries must hold the program-directory values. A configuration that kills or hangs its worker process is a violation (termination).",
+   text="Every directed graph on 1-2 libraries with every assignment of 7 node healths, and every graph on 3 libraries with at most one unhealthy node (thorough: every assignment), is materialised as library files under a program directory (with same-named decoys of different value in the working directory) and as registered sources, the library-to-library edges written as plain names and (all configurations on <= 2 libraries, all-healthy graphs on 3) as only / prefix / rename / except / mixed import sets; every history of import attempts on one interpreter is executed. Each attempt must succeed iff the reference loader finds neither a reachable cycle nor a reachable unhealthy library, and otherwise fail with one of the corresponding error kinds - independently of earlier attempts; after every attempt the in-progress set (hook H2) must be empty and the exports of successfully imported libraries must hold the program-directory values. A configuration that kills or hangs its worker process is a violation (termination).",
    note="supervised workers (watchdog 10 s, rlimits); hook H2 verif_in_progress; coverage accounting requires every configuration exactly once",
    design="7/C14")
 CLAIMED["C19"] = dict(
@@ -99,7 +99,7 @@ CLAIMED["C19"] = dict(
    design="7/C19")
 CLAIMED["C02"] = dict(
    technique="exhaustive enumeration of tail-context compositions x loop shapes, with a per-iteration state invariant (machine stack depth and live heap sampled by a native probe at every iteration)",
-   text="Every composition of the 17 tail contexts of length 1-2 (thorough 3) x 6 loop shapes (self, 2- and 3-way mutual, procedure parameter, variadic, closure-returned) is run for N = 64 and N = 20000 / 3000 iterations on the real interpreter; a native procedure called in every iteration samples the address of a local (real stack depth) and the evaluating thread's live heap. Neither may be larger in the second half of the iterations than in the first (stack byte-exact, heap within 256 B), and the result must be the closed form.",
+   text="Every composition of the 17 tail contexts of length 1-2 (thorough 3) x 7 loop shapes (self, 2- and 3-way mutual, procedure parameter, variadic, closure-returned, closure with captured state that differs per round) is run for N = 64 and N = 20000 / 3000 iterations on the real interpreter; a native procedure called in every iteration samples the address of a local (real stack depth) and the evaluating thread's live heap. Neither may be larger in the second half of the iterations than in the first (stack byte-exact, heap within 256 B), and the result must be the closed form.",
    note="the no-growth invariant observed at every iteration is what carries the claim beyond the executed N; tail calls through apply are a recorded known finding",
    design="7/C02")
 NOT_YET = "check not built yet (build in progress, see DESIGN.md section 12)"
